@@ -68,12 +68,12 @@ type c08Fixture struct {
 }
 
 var c08fx struct {
-	ready      bool
-	tmProof    []byte
-	mptProof   []byte
-	value      []byte
-	verifyTM   func(proof, claim []byte) error
-	verifyETH  func(proof, claim []byte) error
+	ready     bool
+	tmProof   []byte
+	mptProof  []byte
+	value     []byte
+	verifyTM  func(proof, claim []byte) error
+	verifyETH func(proof, claim []byte) error
 }
 
 func c08Fixtures() {
